@@ -230,7 +230,53 @@ def run_config(ctx, facts):
         ok, wit = dflt.must_pass(0, rem)
         ctx.ob("C12-R4", "default drop() calls remove(id) on every path", ok and bool(rem), dflt.loc(),
                "" if ok and rem else "default drop() can return without remove(id): %s" % dflt.fmt_path(wit))
+    r4_bulk(ctx, facts)
+    r6(ctx, facts)
     r5(ctx, facts)
+
+
+def r4_bulk(ctx, facts):
+    """entity deletion must take components out one by one (remove() is the only place a Removed event is written): nothing reachable
+    from the purge entry point may use the silent bulk path clean()/clear()"""
+    ad = [b for b in facts.bodies if b.trait_item == "storage::AnyStorage::drop" and base_ty(b.self_ty or "") == "storage::MaskedStorage"]
+    ctx.anchor("C12-R4", "<MaskedStorage<T> as AnyStorage>::drop", ad)
+    for b in ad:
+        seen = facts.reach([b], edge_filter=lambda bd, bb, t: not t["callee"].get("trait") or bool(t["callee"].get("resolved")) or t["callee"].get("path", "").startswith("storage::"))
+        bulk = []
+        for p in seen:
+            for x in facts.by_path[p]:
+                if x.trait_item and x.trait_item.startswith(US + "::"):
+                    continue
+                for bb, t in x.calls():
+                    if t["callee"].get("path") == US + "::clean":
+                        bulk.append("%s at %s" % (x.path, x.loc(bb)))
+        ctx.ob("C12-R4", "entity deletion never takes the silent bulk path (clean/clear)", not bulk, b.loc(),
+               "" if not bulk else "deleting entities can reach %s: components disappear without a Removed event" % bulk[:3])
+
+
+def r6(ctx, facts):
+    """overwriting insert: on the occupied edge every path goes through the storage's mutable accessor (that is what flags the overwrite)"""
+    bs = [b for b in facts.methods_named("storage::Storage", "insert") if not b.trait_item]
+    bs += [b for b in facts.methods_named("storage::entry::OccupiedEntry", "insert")]
+    ctx.floor("C12-R4", "overwriting insert bodies", len(bs), 2)
+    for b in bs:
+        gm = [bb for bb, t in b.calls() if t["callee"].get("path") == US + "::get_mut" or
+              any(x.name == "get_mut" and base_ty(x.self_ty or "") == "storage::entry::OccupiedEntry" for x in facts.targets(t["callee"]))]
+        am = [bb for bb, t in b.calls() if t["callee"].get("name") == "access_mut"]
+        if base_ty(b.self_ty or "") == "storage::Storage":
+            edges = b.bool_guard_edges(lambda gbb, gt: gt["callee"].get("name") == "contains" and "BitSet" in gt["callee"].get("path", ""))
+            starts = [e["true_edge"][1] for e in edges]
+        else:
+            starts = [0]
+        ok = bool(gm) and bool(am) and bool(starts)
+        why = "no mutable accessor on the overwrite path"
+        for st in starts:
+            o1, w1 = b.must_pass(st, gm)
+            o2, w2 = b.must_pass(st, am)
+            if not (o1 and o2):
+                ok = False
+                why = "an overwrite can complete without get_mut().access_mut() (path %s): no Modified event is written for it" % b.fmt_path(w1 or w2)
+        ctx.ob("C12-R4", "%s overwrites through get_mut().access_mut() on every path" % b.path, ok, b.loc(), "" if ok else why)
 
 
 def r5(ctx, facts):
